@@ -107,3 +107,98 @@ func extractScope(s *section) {
 	}
 	s.raw("scopeGuards", "List SCond", "["+strings.Join(guards, ", ")+"]", guards)
 }
+
+// ---- postprocessItem: the chain of tests that complete an archived item without extracting anything from it
+
+func postCond(e ast.Expr) string {
+	switch x := e.(type) {
+	case *ast.ParenExpr:
+		return postCond(x.X)
+	case *ast.UnaryExpr:
+		if x.Op == token.NOT {
+			return "(.not " + postCond(x.X) + ")"
+		}
+	case *ast.BinaryExpr:
+		switch x.Op {
+		case token.LAND:
+			return "(.and " + postCond(x.X) + " " + postCond(x.Y) + ")"
+		case token.LOR:
+			return "(.or " + postCond(x.X) + " " + postCond(x.Y) + ")"
+		}
+		if c, ok := cmpCtor[x.Op]; ok {
+			if lit, ok := x.Y.(*ast.BasicLit); ok && lit.Kind == token.INT {
+				switch nospace(x.X) {
+				case "item.GetDepthWithoutRedirections()":
+					return "(.atom (.depthCmp " + c + " " + lit.Value + "))"
+				case "config.Get().MaxHops":
+					return "(.atom (.maxHopsCmp " + c + " " + lit.Value + "))"
+				}
+			}
+		}
+	case *ast.CallExpr:
+		switch nospace(x) {
+		case "domainscrawl.Enabled()":
+			return "(.atom .domainsCrawl)"
+		case `strings.Contains(item.GetURL().GetMIMEType().String(),"html")`:
+			return "(.atom .mimeHtml)"
+		}
+	case *ast.SelectorExpr:
+		if nospace(x) == "config.Get().DisableAssetsCapture" {
+			return "(.atom .disableAssets)"
+		}
+	}
+	return "(.unknown " + q(src(e)) + ")"
+}
+
+func completesAndReturns(b *ast.BlockStmt) bool {
+	t := nospace(b)
+	return strings.Contains(t, "item.SetStatus(models.ItemCompleted)") && strings.HasSuffix(t, "returnoutlinks}") && !strings.Contains(t, "AddChild")
+}
+
+// extractPostEarly finds the if / else-if chain of postprocessItem that mentions the depth without redirections and collects the condition
+// of every arm that completes the item and returns (an arm reached through `else if` carries the negation of the arms before it).
+func extractPostEarly(s *section) {
+	fd := fn("internal/pkg/postprocessor/item.go", "postprocessItem")
+	var guards []string
+	if fd != nil && fd.Body != nil {
+		for _, st := range fd.Body.List {
+			ifs, ok := st.(*ast.IfStmt)
+			if !ok || ifs.Init != nil || !strings.Contains(nospace(ifs.Cond), "GetDepthWithoutRedirections()") {
+				continue
+			}
+			prev := ""
+			for cur := ifs; cur != nil; {
+				c := postCond(cur.Cond)
+				g := c
+				if prev != "" {
+					g = "(.and " + prev + " " + c + ")"
+				}
+				if completesAndReturns(cur.Body) {
+					guards = append(guards, g)
+				} else {
+					guards = append(guards, "(.unknown \"an arm of the chain that does not complete the item\")")
+				}
+				if prev == "" {
+					prev = "(.not " + c + ")"
+				} else {
+					prev = "(.and " + prev + " (.not " + c + "))"
+				}
+				switch e := cur.Else.(type) {
+				case *ast.IfStmt:
+					cur = e
+				case nil:
+					cur = nil
+				default:
+					guards = append(guards, "(.unknown \"final else of the chain\")")
+					cur = nil
+				}
+			}
+			break
+		}
+	}
+	if len(guards) == 0 {
+		s.Facts = append(s.Facts, fact{Name: "postEarlyGuards", Type: "List PCond", Value: "[]", JSON: nil, Miss: true})
+		return
+	}
+	s.raw("postEarlyGuards", "List PCond", "["+strings.Join(guards, ", ")+"]", guards)
+}
